@@ -233,6 +233,36 @@ pub fn programs_at(ks: &[usize], gaps: bool) -> Vec<(String, P)> {
             }
             add(format!("mixed-layer({})", k), nn, e, s, t, &mut out);
         }
+        // a left fold with sub over k inputs held by the first k nodes, the source interface listing them in every
+        // order (k <= 4) or in a few orders (identity, reversed, rotated, one interior swap, ends fixed and the interior
+        // reversed): the i-th input value has to reach the i-th LISTED node
+        if k >= 2 {
+            let mut e: Vec<PEdge<u8>> = vec![];
+            let mut acc = 0usize;
+            let mut nn = k;
+            for i in 1..k {
+                e.push(edge(2, vec![acc, i], vec![nn]));
+                acc = nn;
+                nn += 1;
+            }
+            let orders: Vec<Vec<usize>> = if k <= 4 {
+                ohmc_core::iso::all_permutations(k)
+            } else {
+                let id: Vec<usize> = (0..k).collect();
+                let mut swap = id.clone();
+                swap.swap(1, 2);
+                let mut inner: Vec<usize> = id.clone();
+                inner[1..k - 1].reverse();
+                vec![id.clone(), id.iter().rev().cloned().collect(), (0..k).map(|i| (i + 1) % k).collect(), swap, inner]
+            };
+            for (j, s) in orders.into_iter().enumerate() {
+                let f = P { nodes: vec![0; nn], edges: e.clone(), s, t: vec![acc] };
+                out.push((format!("sub-fold-inputs-in-order({},{})", k, j), f.clone()));
+                // and with the hyperedges listed backwards
+                let m = f.edges.len();
+                out.push((format!("sub-fold-inputs-in-order({},{})/edges-reversed", k, j), f.renumber(&(0..nn).collect::<Vec<_>>(), &(0..m).rev().collect::<Vec<_>>())));
+            }
+        }
         // alternating neg / copy+discard in one layer
         // chain of k negations
         add(format!("chain-neg({})", k), k + 1, (0..k).map(|i| edge(3, vec![i], vec![i + 1])).collect(), vec![0], vec![k], &mut out);
